@@ -395,23 +395,39 @@ fn run_case<T: Sc>(ctx: &Ctx, c: &Case, prop: &str, tt: &TTable, seed: u64) {
         if !okn {
             ctx.with(|s| s.violate("C13", "nonlinear-variance-accessor", cj(), format!("nonlinear_parameters_variance = {:?} is not the last {} diagonal entries {:?}", nv.as_slice(), p, cm.diagonal().as_slice())));
         }
-        // correlation
+        // correlation: an identity between reported quantities (covariance normalised by sqrt(C_ii C_jj)), checked
+        // whenever the reported variances are positive and finite - also for badly scaled parameter vectors
         let corr = mat_d(&stats.calculate_correlation_matrix());
-        if comparable {
+        let diag_ok = (0..dim).all(|a| cov[(a, a)] > 0.0 && cov[(a, a)].is_finite());
+        if diag_ok && corr.nrows() == dim && corr.ncols() == dim {
             for a in 0..dim {
                 for b in 0..dim {
-                    let expect = cov[(a, b)] / (cov[(a, a)] * cov[(b, b)]).sqrt();
-                    if !((corr[(a, b)] - expect).abs() <= 8.0 * eps * expect.abs().max(1.0)) {
+                    let denom = (cov[(a, a)].sqrt()) * (cov[(b, b)].sqrt());
+                    let expect = cov[(a, b)] / denom;
+                    if !expect.is_finite() {
+                        continue;
+                    }
+                    // C_ii*C_jj must be comfortably inside the normal range of the scalar type: a product in the subnormal range
+                    // (f32 variances below ~1e-17) loses digits before the square root - a limit of the arithmetic, not of the formula
+                    let prod = cov[(a, a)] * cov[(b, b)];
+                    let (lo, hi) = if T::EPS > 1e-10 { (1.2e-38 * 1e4, 3.4e38 / 1e4) } else { (2.3e-308 * 1e4, 1.7e308 / 1e4) };
+                    if !(prod > lo && prod < hi) {
+                        continue;
+                    }
+                    if !((corr[(a, b)] - expect).abs() <= 16.0 * eps * expect.abs().max(1.0)) {
                         ctx.with(|s| s.violate("C13", "correlation-normalisation", cj(), format!("corr[{},{}] = {:e}, cov_ij/sqrt(cov_ii cov_jj) = {:e}", a, b, corr[(a, b)], expect)));
                     }
-                    if !(corr[(a, b)].abs() <= 1.0 + tol_rel + 8.0 * eps) {
+                    if comparable && !(corr[(a, b)].abs() <= 1.0 + tol_rel + 8.0 * eps) {
                         ctx.with(|s| s.violate("C13", "correlation-range", cj(), format!("corr[{},{}] = {:e}", a, b, corr[(a, b)])));
                     }
                 }
-                if !((corr[(a, a)] - 1.0).abs() <= 4.0 * eps) {
+                let prod = cov[(a, a)] * cov[(a, a)];
+                let (lo, hi) = if T::EPS > 1e-10 { (1.2e-38 * 1e4, 3.4e38 / 1e4) } else { (2.3e-308 * 1e4, 1.7e308 / 1e4) };
+                if prod > lo && prod < hi && !((corr[(a, a)] - 1.0).abs() <= 4.0 * eps) {
                     ctx.with(|s| s.violate("C13", "correlation-diagonal", cj(), format!("corr[{0},{0}] = {1:e}", a, corr[(a, a)])));
                 }
             }
+            ctx.with(|s| s.inc("correlation_checked"));
         }
         ctx.with(|s| s.sample(json!({"case": cj(), "kappa_scaled": kappa, "compared": comparable, "cov_diag": (0..dim).map(|a| cov[(a,a)]).collect::<Vec<_>>() })));
         return;
@@ -619,9 +635,12 @@ fn cov_cases(thorough: bool) -> Vec<Case> {
                 for extra in [1usize, 4] {
                     for w in [WKind::None, WKind::Ramp, WKind::InvSigma, WKind::Tiny, WKind::Huge] {
                         for nv in [0u64, 1, 2] {
-                            for amp in [1.0, 1e-5, 1e5] {
+                            for amp in [1.0, 1e-5, 1e5, 4e9] {
                                 for f32_ in [false, true] {
                                     for prov in [Prov::Hand, Prov::Built] {
+                                        if amp > 1e8 && (f32_ || nv != 1 || prov == Prov::Built) {
+                                            continue;
+                                        }
                                         if !thorough && (nv == 2 || (prov == Prov::Built && amp != 1.0) || (extra == 4 && w == WKind::Ramp)) {
                                             continue;
                                         }
@@ -637,14 +656,17 @@ fn cov_cases(thorough: bool) -> Vec<Case> {
     }
     for fam in [Family::Exp1Off, Family::Exp2Off, Family::Exp3, Family::GaussDecayOff, Family::OLeary] {
         // sample counts around powers of two (block-wise / vectorised accumulations have their corner cases there)
-        for n in [fam.m() + fam.p() + 2, 24, 60, 64, 127, 128, 129, 256] {
-            if !thorough && n > 60 && !matches!(fam, Family::Exp1Off | Family::Exp2Off) {
+        for n in [fam.m() + fam.p() + 2, 24, 60, 64, 127, 128, 129, 256, 1024, 1100] {
+            if (!thorough && n > 60 && !matches!(fam, Family::Exp1Off | Family::Exp2Off)) || (!thorough && n > 256 && !matches!(fam, Family::Exp2Off)) {
                 continue;
             }
             for w in [WKind::None, WKind::Ramp, WKind::InvSigma, WKind::Tiny, WKind::Huge, WKind::Spread, WKind::ZeroAt(2), WKind::NegAt(1)] {
                 for nv in [0u64, 1, 2] {
-                    for amp in [1.0, 1e-5, 1e5] {
+                    for amp in [1.0, 1e-5, 1e5, 4e9] {
                         for f32_ in [false, true] {
+                            if amp > 1e8 && (f32_ || nv != 1) {
+                                continue;
+                            }
                             for (prov, par) in [(Prov::Hand, false), (Prov::Built, false), (Prov::Built, true)] {
                                 v.push(Case { fam: fam.clone(), n, prov, par, w, noise_variant: nv, level: 1e-3, amp, solver: 0, f32_, eps: 0.0 });
                             }
